@@ -15,6 +15,12 @@ Streams
            it was started with while jedi still references its CompiledSubprocess; and no fds at the end.
            Deaths come from the wrapper's fault plans and from the harness itself (SIGKILL between two
            queries + waitid(WNOWAIT): a deterministic "dead before the request is written").
+           Helper-side state: with the last stateful request (id, function) the helper served in a step it
+           must hold no inference state of a Script that was discarded before the step began (the deletion
+           queue is flushed before every such request).  `prog` cases keep several Scripts alive at the same
+           time (distinct ids), make requests of theirs raise inside the surviving helper (first / only
+           stateful request: _test_raise_error(ValueError), or the wrapper's `raises` fault), drop them and
+           go on.
   churn    many Scripts created and dropped on one helper: helper-side live states subset of live Scripts.
 """
 import gc
@@ -41,9 +47,15 @@ MANIFEST = dict(
          'all three pipes for every subset of streams whose close() raises an OSError (cleanup_closes_all_streams, '
          'over the loop shape / stream list / except clause read from the source), hence a crashed or finalized '
          'helper holds no descriptor at any point of any trace (no_leaked_pipes); kernel-checked counter-witness '
-         'for the shape with one try/except around the whole loop. Tie: translator (except clauses, _kill, '
-         '__del__ guard, replacement test, close-loop shape) + trace correspondence (incl. open pipe count per '
-         'helper after every operation) through a fault-injecting stand-in for the environment executable and '
+         'for the shape with one try/except around the whole loop; every inference state the helper holds is '
+         'queued for deletion or belongs to a live, _used Script bound to that helper, for every plan and trace '
+         '(states_owned_or_queued), hence after one further served request nothing is left of a dropped Script '
+         'whatever the outcomes of its requests were (discarded_states_released, over the position of '
+         '`self._used = True` relative to run() read from the source); kernel-checked counter-witnesses for the '
+         'mark moved behind run() (leaked state, stale state reused after id() reuse). Tie: translator (except clauses, _kill, '
+         '__del__ guard and body, _used writes, run() flush loop, replacement test, close-loop shape) + trace '
+         'correspondence (incl. open pipe count and helper-side inference states per helper after every '
+         'operation) through a fault-injecting stand-in for the environment executable and '
          'SIGKILLs from the harness.',
     note='Modelled not verified: pipes, pickle framing (which exception a truncated stream raises is measured '
          'per case), process reaping, weakref.finalize once-only semantics, GC timing, that close() releases the '
@@ -1108,6 +1120,10 @@ def run(ctx):
         'the channel is a parameter: which fault hits which request is taken from the wrapper log, which '
         'exception class the Unpickler raises on a truncated reply is measured per case in the harness process',
         'weakref.finalize runs its callback at most once (CPython); GC happens where the harness calls gc.collect()',
+        'helper-side functions raising an exception (the helper survives) are channel events like the faults: '
+        'which request raised which class is taken from the wrapper log; a deletion request has no function',
+        'ids of live InferenceStateSubprocess objects are distinct (CPython id()); the model drops the first '
+        'object found for an id',
         'no-hang, zombie and fd statements are observed (30 s alarm, re-run alone with 180 s before a hang is '
         'reported; /proc child table; /proc/self/fd pipe census after every query), not proved',
         'a stream.close() that raises still releases its descriptor (CPython buffered close); a request whose '
